@@ -34,6 +34,7 @@ class Prop:
         off = rng.choice([None, None, None, 37, 123, 411])
         if off and "combine_latest" not in form:
             sc["sub2_t"] = 205 + off
+        multi.gen_feedback(rng, sc, rng.choice(srcs), p=0.15)  # a consumer that pushes a follow-up element into one (hot) source
         return sc
 
     def build(self, w, sc):
